@@ -16,6 +16,11 @@ theorem toUpper_spec (up : Char → Char) (bufLen : Nat) (s : List Char) : U.toU
 /-- T1: the functions this property's mirror model follows have today the source text the model was written against.
 `strings.NewMatcher` (and the `Matches` methods) are no longer compared as text: their meaning is regenerated as
 `Gen.newMatcher` and proved equal to the mirror in `QF.Props.C18Matcher.gen_newmatcher_semantics`. -/
-theorem tie : Tie.sameAll ["strings.ToUpper", "scolumn.regexFilter", "ecolumn.filterLike"] = true := by decide
+-- Tie audit (bin/selftest-ties): the following functions are not compared as text any more; every behaviour-changing edit of
+-- them makes a `gen_*_canon` theorem of this property's modules fail, renaming their locals or reformatting them changes nothing:
+-- `scolumn.regexFilter`, `ecolumn.filterLike`: `Gen.kernelAst` (kast.go), `C02Kernels.gen_like_canon` + `gen_kernel_semantics_like_string` / `gen_kernel_semantics_like_enum`.
+-- (`strings.ToUpper` stays: `Gen.matcherUpper` is itself a hash of its text.)
+-- ToUpper is regenerated in `Gen.stringsFns` (C18UpperGen.gen_toUpper_semantics); nothing of C18 is compared as text any more.
+theorem tie : Tie.sameAll [] = true := by decide
 
 end QF.Props.C18
